@@ -54,6 +54,7 @@ RULES = {
     'R-SYMTARGET': extra_rules.r_symtarget,
     'R-ROOTSCAN': extra_rules.r_rootscan,
     'R-LEAFGUARD': extra_rules.r_leafguard,
+    'R-NODELINE': extra_rules.r_nodeline,
     'R-OPTSIDE': driver_rules.r_optside,
     'R-PAIRUSE': gram_rules.r_pairuse,
     'R-PERTREE': driver_rules.r_pertree,
@@ -96,7 +97,7 @@ EDITORS = ('transform.punctuation_delete', 'transform.ptb_delete_traces', 'trans
 
 PROPS = {
     'C01': {
-        'rules': ['R-AUTOMATON', 'R-READER-STATE', 'R-LINK', 'R-SIBLING', 'R-OPTKEY', 'R-ENC', 'R-ROOTSCAN'],
+        'rules': ['R-AUTOMATON', 'R-READER-STATE', 'R-LINK', 'R-SIBLING', 'R-OPTKEY', 'R-ENC', 'R-ROOTSCAN', 'R-NODELINE'],
         'filter': {'R-LINK': site('treeinput.', 'trees.Tree'),
                    'R-OPTKEY': site('treeinput.', 'trees.parse_label'),
                    'R-ENC': either(rule('R-ENC/GUNZIP'), site('treeinput.'))},
@@ -126,7 +127,7 @@ PROPS = {
                        'independent decoder recovers the tree, tab-stop widths, terminals output text.',
     },
     'C03': {
-        'rules': ['R-FRAMEFILE', 'R-DISPATCH', 'R-ENC', 'R-NONE', 'R-VOCAB', 'R-AUTOMATON', 'R-OPTKEY', 'R-READER-STATE', 'R-DIRMODE', 'R-OPENMODE', 'R-SIBLING', 'R-OPTSIDE', 'R-PERTREE'],
+        'rules': ['R-FRAMEFILE', 'R-DISPATCH', 'R-ENC', 'R-NONE', 'R-VOCAB', 'R-AUTOMATON', 'R-OPTKEY', 'R-READER-STATE', 'R-DIRMODE', 'R-OPENMODE', 'R-SIBLING', 'R-OPTSIDE', 'R-PERTREE', 'R-NODELINE'],
         'filter': {'R-PERTREE': site('transform.run'),
                    'R-OPTSIDE': site('transform.run'),
                    'R-OPENMODE': site('transform.'),
@@ -343,8 +344,11 @@ PROPS = {
                        'yield; label generators are per call. Does NOT decide: additivity as an equation.',
     },
     'C19': {
-        'rules': ['R-ORDERED', 'R-LEVELS', 'R-EXPNUM', 'R-NAV', 'R-LEAFGUARD'],
-        'filter': {'R-LEAFGUARD': site('trees.'),
+        'rules': ['R-ORDERED', 'R-LEVELS', 'R-EXPNUM', 'R-NAV', 'R-LEAFGUARD', 'R-FRAME', 'R-STATE', 'R-MEMO'],
+        'filter': {'R-FRAME': both(rule('R-FRAME/PURE'), site('trees.')),
+                   'R-STATE': both(rule('R-STATE/G1'), site('trees')),
+                   'R-MEMO': site('trees'),
+                   'R-LEAFGUARD': site('trees.'),
                    'R-ORDERED': either(rule('R-ORDERED/DEF'), site('trees.'))},
         'explanation': 'Decides only: children() sorts by leftmost token, terminals() by number; preorder/postorder yield '
                        'the node once before/after recursing over the ordered children; siblings use the ordered list; '
